@@ -42,7 +42,7 @@ let rec sexp (e : expr) : string =
   | ECond (c, t, f) -> "(cond " ^ sexp c ^ " " ^ sexp t ^ " " ^ sexp f ^ ")"
   | EArr es -> "(arr" ^ lst es ^ ")"
   | EHash kvs ->
-      let ps = List.sort compare (List.map (fun (k, v) -> "(" ^ sexp k ^ " " ^ sexp v ^ ")") kvs) in
+      let ps = List.map (fun (k, v) -> "(" ^ sexp k ^ " " ^ sexp v ^ ")") kvs in   (* source order, as the parser keeps it *)
       if ps = [] then "(hash)" else "(hash " ^ String.concat " " ps ^ ")"
   | EFilter (b, f, es) -> "(filter " ^ sexp b ^ " " ^ sb f ^ lst es ^ ")"
   | ECall (f, es) -> "(call " ^ sb f ^ lst es ^ ")"
@@ -64,7 +64,7 @@ let slit s = ELit (LStr (bs s))
 
 let str_pool = [| "a"; "str"; ""; "it's"; "say \"hi\""; "a\\b"; "}}"; "%}"; "{{ x }}"; "a b"; "0"; "12"; "x#y";
                   "tab\there"; "\xc3\xa9t\xc3\xa9"; "line\nbreak"; "Hello"; "st"; "tr"; "1.0"; "-"; "a,b"; "(x)"; "?:";
-                  "\\n"; "'"; "\""; "}"; "{#"; "\\'x" |]
+                  "\\n"; "'"; "\""; "}"; "{#"; "\\'x"; "a\\"; "\\"; "two\\\\"; "q'\\" |]
 
 let gen_lit_int r =
   ilit (wpick r [ (8, rint r 10); (3, rint r 100); (1, 0); (1, 1); (1, 2); (1, 9007199254740991);
@@ -79,7 +79,17 @@ let rec gen_int r d : expr =
     | 4 -> EUn (UNeg, gen_int r (d - 1))
     | 5 -> EUn (UPos, gen_int r (d - 1))
     | 6 | 7 -> EBin (BAdd, gen_int r (d - 1), gen_int r (d - 1))
-    | 8 | 9 -> EBin (BSub, gen_int r (d - 1), gen_int r (d - 1))
+    | 8 -> EBin (BSub, gen_int r (d - 1), gen_int r (d - 1))
+    | 9 ->
+        (* left operand ending in a closing bracket, right operand starting with a digit: written without
+           blanks this is ")-1", "]-1" *)
+        let l = match rint r 5 with
+          | 0 -> EItem (v "l", ilit (rint r 3))
+          | 1 -> ECall (bs "max", [ gen_int r (d - 1); gen_lit_int r ])
+          | 2 -> ECond (gen_bool r (d - 1), gen_int r (d - 1), gen_lit_int r)
+          | 3 -> EItem (EHash [ (slit "a", gen_int r (d - 1)) ], slit "a")
+          | _ -> EFilter (gen_int r (d - 1), bs "default", [ ilit 1 ]) in
+        EBin (pick r [| BSub; BSub; BAdd |], l, gen_lit_int r)
     | 10 | 11 -> EBin (BMul, gen_int r (d - 1), gen_int r (d - 1))
     | 12 -> EBin (BDiv, gen_int r (d - 1), gen_int r (d - 1))
     | 13 -> EBin (BMod, gen_int r (d - 1), gen_int r (d - 1))
@@ -88,10 +98,14 @@ let rec gen_int r d : expr =
     | 16 -> EFilter (gen_int r (d - 1), bs "abs", [])
     | 17 -> EFilter (gen_list r (d - 1), bs "length", [])
     | 18 -> EItem (v "l", ilit (rint r 3))
-    | 19 -> (match rint r 3 with
+    | 19 -> (match rint r 7 with
              | 0 -> EAttr (v "m", bs "i")
              | 1 -> EAttr (EAttr (v "m", bs "n"), bs "x")
-             | _ -> EItem (EAttr (v "m", bs "n"), slit "x"))
+             | 2 -> EItem (EAttr (v "m", bs "n"), slit "x")
+             | 3 -> EAttr (EItem (v "m", slit "n"), bs "x")
+             | 4 -> EAttr (EHash [ (slit "a", gen_int r (d - 1)); (slit "b", gen_any r (d - 1)) ], bs "a")
+             | 5 -> EAttr (ECond (gen_bool r (d - 1), v "m", EAttr (v "m", bs "n")), bs (pick r [| "i"; "x" |]))
+             | _ -> EAttr (EItem (EArr [ v "m" ], ilit 0), bs "i"))
     | 20 -> ECall (bs "max", [ gen_int r (d - 1); gen_int r (d - 1) ])
     | _ -> EFilter (v "nothing", bs "default", [ gen_int r (d - 1) ])
 
@@ -140,7 +154,10 @@ and gen_str r d : expr =
     | 3 | 4 | 5 -> EBin (BConcat, gen_any r (d - 1), gen_any r (d - 1))
     | 6 -> EFilter (gen_str r (d - 1), bs "upper", [])
     | 7 -> ECond (gen_bool r (d - 1), gen_str r (d - 1), gen_str r (d - 1))
-    | 8 -> EAttr (v "m", bs "k")
+    | 8 -> (match rint r 3 with
+            | 0 -> EAttr (v "m", bs "k")
+            | 1 -> EAttr (EItem (v "ll", ilit 0), bs "name")
+            | _ -> EAttr (EFilter (v "ll", bs "first", []), bs "name"))
     | 9 -> EItem (v "m", slit "k")
     | 10 -> EItem (EHash [ (slit "a", gen_str r (d - 1)); (slit "b", gen_any r (d - 1)) ], slit (pick r [| "a"; "b" |]))
     | _ -> EFilter (v (pick r [| "nothing"; "emp" |]), bs "default", [ gen_str r (d - 1) ])
@@ -188,8 +205,8 @@ let rec gen_chaos r d : expr =
             else ECall (bs (pick r [| "max"; "min"; "vid" |]), List.init (1 + rint r 2) (fun _ -> g ()))
     | 12 -> ETest (g (), bs (pick r [| "odd"; "even"; "defined"; "empty"; "null"; "iterable"; "in" |]), (if rint r 4 = 0 then [ g () ] else []), rbool r)
     | 13 -> EAttr (v (pick r [| "m"; "l"; "s" |]), bs (pick r [| "k"; "n"; "i"; "not"; "true"; "in" |]))
-    | 14 -> EAttr (EAttr (v "m", bs "n"), bs "x")
-    | _ -> EModCall (v "m", bs "get", [ g () ])
+    | 14 -> if rbool r then EAttr (EAttr (v "m", bs "n"), bs "x") else EAttr (g (), bs (pick r [| "k"; "n"; "x"; "name" |]))
+    | _ -> if rbool r then EModCall (v "m", bs "get", [ g () ]) else EModCall (g (), bs "get", [ g () ])
 
 (* ---- measures for the evidence ---- *)
 let rec fold_expr (f : 'a -> expr -> 'a) (a : 'a) (e : expr) : 'a =
@@ -406,37 +423,37 @@ let fixed_trees : (expr * bool) list =
     slit "}}", false;
     slit "it's \"q\" a\\b", false ]
 
-(* known quirks of the engine: template, what the property demands, what the engine is known to answer *)
-let quirks = [
-  "negative-zero", "{{ -0 }}", "0", Some "-0";
-  "negative-zero", "{{ 0 * -1 }}", "0", Some "-0";
-  "negative-zero", "{{ 0 / -5 }}", "0", Some "-0";
-  "negative-zero", "{{ -4 % 2 }}", "0", Some "-0";
-  "negative-zero", "{{ 'x' ~ -i0 }}", "x0", Some "x-0";
-  "float-zero-is-true", "{{ (1 - 1) ? 'y' : 'n' }}", "n", Some "y";
-  "float-zero-is-true", "{% if i5 - 5 %}T{% else %}F{% endif %}", "F", Some "T";
-  "float-zero-is-true", "{{ not (2 * 0) }}", "true", Some "false";
-  "float-zero-is-true", "{{ 0 * 3 and yes }}", "false", Some "true";
-  "attribute-after-index-or-parenthesis", "{{ ll[0].name }}", "N", None;
-  "attribute-after-index-or-parenthesis", "{{ (m).k }}", "v", None;
-  "attribute-after-index-or-parenthesis", "{{ m['n'].x }}", "7", None;
-  "attribute-after-index-or-parenthesis", "{{ (yes ? m : m).k }}", "v", None;
-  "adjacent-closing-braces-end-the-print-tag", "{{ {'a': {'b': 1}}['a']['b'] }}", "1", None;
-  "adjacent-closing-braces-end-the-print-tag", "{{ [{'a': 1}][0]['a'] ~ {'b': {'c': 2}}|length }}", "11", None;
-  "tag-closer-inside-string-literal", "{{ '}}' }}", "}}", None;
-  "tag-closer-inside-string-literal", "{% if '%}' == s %}a{% else %}b{% endif %}", "b", None;
-  "string-literal-ending-in-backslash", "{{ 'a\\\\' }}", "a\\", None;
-  "string-literal-ending-in-backslash", "{{ 'a\\\\' ~ 'b' }}", "a\\b", None;
-  "include-with-comma-inside-parentheses", "{% include 'inc' with {'v': max(1, 2)} %}", "2", None;
-  "include-with-comma-inside-parentheses", "{% include 'inc' with {'v': nothing|default(3, 4)} %}", "3", None;
+(* witnesses of defects that were repaired in /repo (KNOWN_FINDINGS.txt, fixed: lines): template and the
+   output the property demands; anything else is a failure *)
+let regressions = [
+  "{{ -0 }}", "0";  "{{ 0 * -1 }}", "0";  "{{ 0 / -5 }}", "0";  "{{ -4 % 2 }}", "0";  "{{ 'x' ~ -i0 }}", "x0";
+  "{{ (1 - 1) ? 'y' : 'n' }}", "n";  "{% if i5 - 5 %}T{% else %}F{% endif %}", "F";  "{{ not (2 * 0) }}", "true";
+  "{{ 0 * 3 and yes }}", "false";
+  "{{ ll[0].name }}", "N";  "{{ (m).k }}", "v";  "{{ m['n'].x }}", "7";  "{{ (yes ? m : m).k }}", "v";
+  "{{ ll|first.name ~ [m][0].n.x }}", "N7";  "{{ -i5.zz }}", "0";
+  "{{ 'a\\\\' }}", "a\\";  "{{ 'a\\\\' ~ 'b' }}", "a\\b";  "{% include 'inc' with {'v': 'a\\\\'} %}", "a\\";
+  "{% include 'inc' with {'v': max(1, 2)} %}", "2";  "{% include 'inc' with {'v': nothing|default(3, 4)} %}", "3";
+  "{{ l[0]-1 }}{{ (i5)-1 }}{{ max(1,2)-1 }}{{ l[1] -2 }}{{ {'a': 3}['a']-1 }}", "04102";
+  "{% include 'inc' with {'v': i5 * 2 + 1} only %}", "11";  "{% include 'inc' with {'i5': 1, 'v': i5 + 1} %}", "6";
+]
+
+(* the listed known finding: the bytes of a tag closer inside the expression end the tag *)
+let known_tag_closer = [
+  "{{ '}}' }}", "}}";
+  "{{ 'a}}b' ~ 1 }}", "a}}b1";
+  "{% if '%}' == s %}a{% else %}b{% endif %}", "b";
+  "{{ {'a': {'b': 1}}['a']['b'] }}", "1";
+  "{{ [{'a': 1}][0]['a'] ~ {'b': {'c': 2}}|length }}", "11";
 ]
 
 let run ~seed ~tier oc =
   let r = mk_rng seed in
   let deep = tier = "thorough" in
-  List.iter (fun (cls, tpl, demanded, known) ->
-    emit oc (Ob [ "stream", JS "quirk"; "class", JS cls; "tpl", JS (hex tpl); "demanded", JS (hex demanded);
-                  "known", JS (match known with Some k -> hex k | None -> "error") ])) quirks;
+  List.iter (fun (tpl, demanded) ->
+    emit oc (Ob [ "stream", JS "regress"; "tpl", JS (hex tpl); "demanded", JS (hex demanded) ])) regressions;
+  List.iter (fun (tpl, demanded) ->
+    emit oc (Ob [ "stream", JS "known:tag-closer-inside-expression"; "tpl", JS (hex tpl); "demanded", JS (hex demanded);
+                  "predicted", JS "parse-error" ])) known_tag_closer;
   List.iter (fun (e, listy) -> tree_case oc r "fixed" e ~listy) fixed_trees;
   List.iter (fun (src, e) -> case_with oc "table" e ~listy:false [ { style = "hand"; src; safe = true } ]) table_cases;
   let ntyped = if deep then 26000 else 2600 in
